@@ -258,6 +258,47 @@ pub fn generate(files: &[SourceFile], report: &mut Report) -> String {
             out.push_str(&format!("def {} : Nat := {}\n", n, i));
         }
     }
+    // the bodies of the functions named `check_guard`: does the check reject a foreign collector in
+    // every build profile? (`assert!`, not `debug_assert!`, not under `cfg!`/`#[cfg]`), or delegate
+    // to another `check_guard`
+    out.push_str("\n/-- (type, the body of its `check_guard` panics on a foreign collector in every build profile) -/\ndef checkGuardBodies : List (String × Bool) := [");
+    let mut cg = vec![];
+    for rel in ["map.rs", "set.rs", "map_ref.rs", "set_ref.rs"] {
+        let Some(f) = file(files, rel) else { continue };
+        for fi in fns(f) {
+            if fi.name != "check_guard" {
+                continue;
+            }
+            let ty = fi.imp.map(impl_type_name).unwrap_or_default();
+            struct M {
+                asserts: bool,
+                weak: bool,
+            }
+            impl<'ast> Visit<'ast> for M {
+                fn visit_macro(&mut self, m: &'ast syn::Macro) {
+                    let name = m.path.segments.last().map(|s| s.ident.to_string()).unwrap_or_default();
+                    let toks = m.tokens.to_string().replace(' ', "");
+                    if name == "assert" && toks.contains("ptr_eq") && toks.contains("collector") {
+                        self.asserts = true;
+                    }
+                    if name.starts_with("debug_assert") || name == "cfg" {
+                        self.weak = true;
+                    }
+                }
+            }
+            let mut m = M { asserts: false, weak: false };
+            m.visit_block(fi.block);
+            let body = tokens_of(fi.block);
+            let attrs_cfg = fi.attrs.iter().any(|a| tokens_of(a).replace(' ', "").starts_with("#[cfg"));
+            let delegates = body.replace(' ', "").contains(".check_guard(");
+            let early_exit = body.contains("return");
+            let ok = (m.asserts || delegates) && !m.weak && !attrs_cfg && !early_exit;
+            cg.push(format!("({}, {})", lean_str(&ty), ok));
+        }
+    }
+    report.count("check_guard_bodies", cg.len());
+    out.push_str(&cg.join(", "));
+    out.push_str("]\n");
     out.push_str("\nend Flurry.Gen\n");
     report.count("guard_fns", rows.len());
     report.count("guard_fns_public", npub);
